@@ -119,7 +119,8 @@ class Gen(object):
                                   'Char', 'Boolean')]
         if not plain:
             return None
-        if depth >= 2 or rng.random() < 0.55:
+        if depth >= 3 or (depth >= 2 and not self.cfg.get('q_wrap')) \
+                or rng.random() < 0.55:
             f = rng.choice(plain)
             if f['kind'] == 'Char':
                 look = rng.choice(['exact', 'exact', 'isnull'])
@@ -148,10 +149,10 @@ class Gen(object):
         if r < 0.25:
             c = self.gen_q(model, depth + 1, allow_xor)
             return {'q': 'not', 'c': c}
-        if r < 0.32 and self.cfg.get('q_wrap'):
+        if r < 0.42 and self.cfg.get('q_wrap'):
             c = self.gen_q(model, depth + 1, allow_xor)
             return {'q': 'wrap', 'c': c}
-        if r < 0.42 and self.cfg.get('q_conn1'):
+        if r < 0.50 and self.cfg.get('q_conn1'):
             c = self.gen_q(model, 2, allow_xor)        # a leaf
             if c and c['q'] == 'leaf':
                 return {'q': 'conn1', 'c': c,
@@ -315,11 +316,16 @@ class Gen(object):
                                                   'OneToOne']))
                 f['to'] = rng.choice(others)
                 m['fields'].append(f)
-            if cfg['m2m'] and rng.random() < 0.4:
-                n = self.free_field_name(m, M2M_NAMES)
-                f = self.gen_field(n, 'ManyToMany')
-                f['to'] = rng.choice(others)
-                m['fields'].append(f)
+            for p_m2m in (0.4, 0.35):
+                if cfg['m2m'] and rng.random() < p_m2m:
+                    n = self.free_field_name(m, M2M_NAMES)
+                    if n is None:
+                        break
+                    f = self.gen_field(n, 'ManyToMany')
+                    f['to'] = rng.choice(others)
+                    m['fields'].append(f)
+                else:
+                    break
         m['meta'] = self.gen_meta(app, m)
         return m
 
